@@ -79,6 +79,14 @@ MALFORMED = [
     lambda rng, a: fmt(a) + ' - ' + f'{a.year + 1:04d}/{a.month:02d}/32',
     lambda rng, a: fmt(a) + ' - ' + fmt(a + datetime.timedelta(days=3)) + ' ' + fmt(a + datetime.timedelta(days=9)),
     lambda rng, a: f'{a.year:04d}/ {a.month % 10}/ {a.day % 10 or 1}',
+    # words a date parser understands, and fields that are not two digits wide
+    lambda rng, a: rng.choice(['today', 'now', 'Today', fmt(a) + ' - now', 'today - ' + fmt(a + datetime.timedelta(days=40000))]),
+    lambda rng, a: f'{a.year:04d}/{a.month % 9 + 1}/{a.day:02d}',
+    lambda rng, a: f'{a.year:04d}/{a.month:02d}/{a.day % 9 + 1}',
+    lambda rng, a: f'{a.year:04d}/{a.month:02d}/ {a.day % 9 + 1}',
+    lambda rng, a: fmt(a) + ' - ' + f'{a.year + 1:04d}/{a.month % 9 + 1}/{a.day % 9 + 1}',
+    lambda rng, a: rng.choice([f'{a.year // 100:02d}_{a.year % 10}/{a.month:02d}/{a.day:02d}', f'{a.year:04d}/0_/{a.day:02d}',
+                               f'{a.year:04d}/{a.month:02d}/+{a.day % 9 + 1}', f'{a.year:04d}/{a.month:02d}/{a.day % 9 + 1}.']),
 ]
 
 
@@ -170,7 +178,7 @@ def run(out, tier, model_ok=True):
     key = (tuple(c['entries']),) if (len(c['entries']) >= 2 or c['malformed'] is not None) else None
     out.count(key)
   out.rule = ('generated lists of day / range strings (YYYY/MM/DD, years 1700-2200, month/leap/century boundaries, '
-              'overlaps, duplicates, shuffled, 5 separator spellings) and a malformed stream (28 kinds, incl. spellings outside the documented format that a general date parser accepts); '
+              'overlaps, duplicates, shuffled, 5 separator spellings) and a malformed stream (34 kinds, incl. spellings outside the documented format that a general date parser accepts); '
               'non-trivial = at least two entries or a malformed entry; distinct by entry list')
   out.extra.update({'well_formed_cases': n_ok, 'malformed_cases': n_bad, 'cases_with_overlap': overl,
                     'malformed_kinds': len(MALFORMED)})
